@@ -67,6 +67,27 @@ Theorem C02_global_filter_transparent :
 Proof. exact global_filter_transparent. Qed.
 Print Assumptions C02_global_filter_transparent.
 
+(* a record logged through log! from the Drop of an appender of the previous
+   configuration (it is released inside set_config, after the swap) is filtered
+   and routed as the NEW configuration prescribes: same-thread re-entrancy only *)
+Theorem C02_reentrant_drop_sees_new_config :
+  forall c0 cs c, valid c0 -> Forall valid cs -> valid c ->
+    exists st, run_history c0 cs = Some st /\
+      forall T L, (L <= 5)%N ->
+        option_map (map (name_of c)) (drop_probe st c T L) = Some (spec_deliver c T L).
+Proof. exact drop_probe_sees_new_config. Qed.
+Print Assumptions C02_reentrant_drop_sees_new_config.
+
+(* a Config changed after build() through root_mut().set_level is just another
+   valid configuration (so all theorems above speak about it): what counts is
+   the level it carries when handed to init_config / set_config *)
+Theorem C02_post_build_root_level_counts :
+  forall cfg l, valid cfg ->
+    valid (root_set_level cfg l) /\
+    spec_max (root_set_level cfg l) = fold_right N.max l (map l_level (c_loggers cfg)).
+Proof. exact root_set_level_spec. Qed.
+Print Assumptions C02_post_build_root_level_counts.
+
 (* ---- non-vacuity ---- *)
 (* quiet root, verbose grandchild below an implied intermediate *)
 Definition ex_quiet : config :=
@@ -99,4 +120,13 @@ Example C02_example_history :
   ex_obs ex_quiet [ex_off; ex_loud] "a::q" 3%N = Some (4%N, false, []) /\
   ex_obs ex_quiet [ex_off; ex_loud; ex_quiet] "a::b" 5%N = Some (5%N, true, [1; 0]%nat) /\
   ex_obs ex_quiet [ex_off; ex_loud; ex_quiet] "c::d" 1%N = Some (5%N, false, []).
+Proof. vm_compute. repeat split. Qed.
+
+Example C02_example_drop_and_tweak :
+  (* Off -> quiet/verbose: a Trace probe from the Drop of ex_off's appender is delivered *)
+  option_map (fun st => drop_probe st ex_quiet (bs "a::b") 5%N) (run_history ex_off [])
+    = Some (Some [1; 0]%nat) /\
+  (* root raised to Trace after build: the global max follows *)
+  option_map facade_max (run_history ex_off [root_set_level ex_loud 5%N]) = Some 5%N /\
+  option_map facade_max (run_history ex_off [root_set_level ex_loud 0%N]) = Some 2%N.
 Proof. vm_compute. repeat split. Qed.
